@@ -210,7 +210,7 @@ def gen_grammar(repo):
 class C02(Prop):
     id = "C02"
     title = "Compiling any source text is safe and leaves the compiler reusable"
-    lean_modules = ["NV.C02.Props", "NV.C02.Witness", "NV.C02.LemmasBuf", "NV.C02.Emit", "NV.C02.PropsReset", "NV.C02.PropsTie"]
+    lean_modules = ["NV.C02.Props", "NV.C02.Witness", "NV.C02.LemmasBuf", "NV.C02.Emit", "NV.C02.PropsReset", "NV.C02.PropsTie", "NV.C02.PropsWidth"]
     theorems = ["NV.C02.table_writes_in_bounds", "NV.C02.table_cursors_in_allocation", "NV.C02.mem_block_fits",
                 "NV.C02.include_depth_bounded", "NV.C02.include_stack_empty_after_end", "NV.C02.lexer_flag_clear_after_start", "NV.C02.yytext_in_bounds",
                 "NV.C02.scratch_writes_in_bounds", "NV.C02.scratch_empty_after_destroy", "NV.C02.idents_restored", "NV.C02.locals_reset_after_cleanup",
@@ -218,7 +218,8 @@ class C02(Prop):
                 "NV.C02.macro_body_in_bounds", "NV.C02.define_text_in_bounds", "NV.C02.terminator_in_bounds",
                 "NV.C02.include_macro_hops_bounded", "NV.C02.reserved_covers_written", "NV.C02.code_writes_in_block",
                 "NV.C02.compiler_state_reset", "NV.C02.literal_enter_matches_source", "NV.C02.add_local_matches_source",
-                "NV.C02.literal_leave_matches_source", "NV.C02.counters_fit_their_fields", "NV.C02.default_locals_fit"]
+                "NV.C02.literal_leave_matches_source", "NV.C02.counters_fit_their_fields", "NV.C02.default_locals_fit",
+                "NV.C02.sem_value_bounded_by_table", "NV.C02.table_size_bounded_by_nesting", "NV.C02.sem_value_fits_short"]
     witness_theorems = []
     # how far a STORE_* macro of lib/port/byte_code.h advances the code pointer = what ins_* writes (MEASURED by
     # running the macro in the probe, not copied)
@@ -279,7 +280,7 @@ class C02(Prop):
                    "probe-program reusability check is exploration (one fixed probe + adaptive probe of at most 24 declared names); the model-level statement compiler_state_reset is proved, its tie to the driver is the trace replay",
                    "MaxLocalVariables above 255 (run-time function headers keep num_local in an unsigned char) is outside this check; 128..255 is explored with one configuration (200)",
                    "errors raised by LPC code called during compilation (master log_error etc.) leave compile_file()'s static guard set; not explored",
-                   "16-bit sem_value: not proved (analysis in notes: bounded by MaxLocalVariables x YYMAXDEPTH, no wrap at the default 25)"]
+                   "16-bit sem_value: proved not to wrap in the model for the default MaxLocalVariables under the hypothesis that at most YYMAXDEPTH function literals are open (bison's stack limit itself is not modelled); for MaxLocalVariables >= 55 the bound no longer excludes a wrap"]
 
     # ---- generated Lean beyond plain constants --------------------------------
     def gen_extra(self, ctx, bdir):
